@@ -56,12 +56,17 @@ def install(eng, fs, environ, files):
     import ndn.platform.linux as lx
     from ndn.platform.general import Platform
 
-    class P:
+    class _PathMeta(type):
+        def __getattr__(cls, k):          # every pure path-string function of os.path is the real one
+            return getattr(posixpath, k)
+
+    class P(metaclass=_PathMeta):
         exists = staticmethod(fs.exists)
+        isfile = staticmethod(fs.exists)
+        isdir = staticmethod(fs.exists)
         expandvars = staticmethod(lambda p: p)
         expanduser = staticmethod(lambda p: p.replace('~', HOME, 1))
-        join = staticmethod(posixpath.join)
-        dirname = staticmethod(posixpath.dirname)
+        abspath = staticmethod(lambda p: p if p.startswith('/') else posixpath.join('/cwd', p))
 
     class OS:
         path = P
@@ -113,17 +118,16 @@ def h_conf(eng, case):
     except Exception as e:
         eng.fail('read-no-error', exc_sig(e), repr(e)[:120])
         return
-    K = fs.known
-    # ---- decision table ----
+    # ---- decision table: the oracle consults the (symbolic) world itself - also for paths the code never looked at
+    def ex(p):
+        return fs.exists(p)
     path = ''
     for p in CAND:
-        if p in K and bool(K[p]):
+        if ex(p):
             path = p
             break
-        if p not in K:
-            break
     default_transport = 'unix:///run/nfd/nfd.sock'
-    if '/run/nfd/nfd.sock' in K and not bool(K['/run/nfd/nfd.sock']) and bool(K.get('/run/nfd.sock', False)):
+    if not ex('/run/nfd/nfd.sock') and ex('/run/nfd.sock'):
         default_transport = 'unix:///run/nfd.sock'
     exp = {'transport': default_transport, 'pib': 'pib-sqlite3', 'tpm': 'tpm-file'}
     if path:
@@ -142,13 +146,13 @@ def h_conf(eng, case):
         scheme, _, loc = exp[k].partition(':')
         gs, _, gl = got[k].partition(':')
         eng.check(gs == scheme, 'precedence', {'item': k, 'got': got[k]}, sig=k + '-scheme')
-        if loc and bool(K.get(loc, False)):
+        if loc and ex(loc):
             want = loc                                              # exists: used as given
         else:
             rel = posixpath.join(posixpath.dirname(path), loc) if loc else ''
-            if rel and bool(K.get(rel, False)):
+            if rel and ex(rel):
                 want = rel                                          # relative to the configuration file
-            elif bool(K.get(defaults[k], False)):
+            elif ex(defaults[k]):
                 want = defaults[k]                                  # platform default location
             else:
                 want = None                                         # nothing exists: not specified by the statement
